@@ -37,7 +37,8 @@ def strategy_case(draw):
     fam = draw(st.sampled_from(["a", "a", "a", "b", "b", "b", "c", "d"]))
     dt = draw(st.sampled_from(gen.DTYPES_ALL))
     source = draw(st.sampled_from(["torch", "numpy"]))
-    case = {"family": fam, "dt": dt, "source": source, "seed": draw(gen.SEED)}
+    case = {"family": fam, "dt": dt, "source": source, "seed": draw(gen.SEED),
+            "scale_exp": draw(st.sampled_from([0, 0, 0, -6, -3, 3, 6]))}
     if fam == "c":
         sp = draw(st.sampled_from(SPECTRA))
         n = len(sp)
@@ -168,6 +169,8 @@ def build_input(case):
                 A = torch.full(shp, 2.0, dtype=wd)
             ub = [1] * (d + 1)
         present = case["present"]
+    if case.get("scale_exp", 0) and fam != "c":
+        A = A * (10.0 ** case["scale_exp"])
     A = A.to(DT[dt])            # the actual input, in the input dtype
     Aw = core.widen(A)
     src = A.clone()
@@ -200,8 +203,12 @@ def execute(case):
     ck.label("family:" + fam, "dt:" + dt, "source:" + case["source"], "target:" + str(case.get("target")), "order:%d" % d)
     if M:
         ck.label("operator")
+    if case.get("scale_exp", 0) and fam != "c":
+        ck.label("scaled:1e%d" % case["scale_exp"])
     if any(n == 1 for n in N):
         ck.label("singleton_mode")
+    if any(n == 1 and 0 < i < len(N) - 1 for i, n in enumerate(N)):
+        ck.label("interior_singleton_mode")
     dims = [n * (M[i] if M else 1) for i, n in enumerate(N)]
 
     kw = {"eps": eps}
